@@ -135,6 +135,17 @@ class World:
             return (x for x in [1]), None, 'unconvertible_value'
         raise ValueError(k)
 
+    def model_value(self, spec):
+        """-> (model value, fault kind) without touching the real tree."""
+        if spec['k'] == 'py':
+            return dec(spec['v']), None
+        if spec['k'] == 'node_at':
+            try:
+                return self.m_at(spec['path']), None
+            except (KeyError, IndexError, TypeError):
+                return 0, None
+        return None, 'unconvertible_value'
+
     def _would_cycle(self, cpath, spec):
         if spec['k'] != 'node_at':
             return False
@@ -385,14 +396,14 @@ def prefix_states(pre, cpath, op, world):
         for it in items[:n]:
             try:
                 if op['op'] == 'extend':
-                    _, mv, fk = world.mk_value(it)
+                    mv, fk = world.model_value(it)
                     if fk:
                         ok = False
                         break
                     node.append(copy.deepcopy(mv))
                 else:
                     k, vs = it
-                    _, mv, fk = world.mk_value(vs)
+                    mv, fk = world.model_value(vs)
                     if fk or k in FORBIDDEN_KEYS:
                         ok = False
                         break
